@@ -20,7 +20,7 @@ from ..affsel import Sel
 from ..facepad import AX, AY, FACE, axis_of_dim, face_parts, halo_pieces, norm_form, run
 from ..xmodel import dimsym, make_da, make_grid
 from .c02 import DEFAULTS, run_grid_init, run_pad
-from .c05 import L, N, W, _check_open_edges, _check_prepad_and_trim, check_link_cells, check_single_links
+from .c05 import L, N, W, _check_open_edges, _check_prepad_and_trim, check_link_cells, check_shared_source, check_single_links
 
 EXPLANATION = (
     "Abstract evaluation of _pad_face_connections for the 8 link kinds with scalar input (affine-selection normal form vs. "
@@ -46,6 +46,7 @@ def check(ctx):
     fi = P.func("padding:_pad_face_connections")
     check_link_cells(ctx, P, (None,), rule_of=lambda r: RULE_MAP.get(r, r))
     check_single_links(ctx, P, (None,), rule_of=lambda r: RULE_MAP.get(r, r))
+    check_shared_source(ctx, P, (None,), rule_of=lambda r: RULE_MAP.get(r, r))
     for sub in (_check_prepad_and_trim, _check_open_edges):
         try:
             sub(ctx, P, fi, rule="R03.2", **({"with_vector": False} if sub is _check_prepad_and_trim else {}))
